@@ -71,7 +71,26 @@ def guarded_literal_index(repo, site):
     if fn is None:
         return None
     pm = A.parent_map(fn.body)
+    envs = None
     for n in A.walk(fn.body):
+        if n["k"] == "Index" and n["l"] == site["line"] and n["index"]["k"] == "Range" and n["index"].get("end") is None and n["index"].get("start") is not None:
+            # `v[i + 1..]` (or `v[i..]`) with i the enumerate() index over the same v: i < len, so i + 1 <= len -- the suffix may be empty, never out of range
+            envs = envs or A.collect_envs(fn)
+            st = n["index"]["start"]
+            plus = 0
+            if st["k"] == "Binary" and st["op"] == "+" and st["right"]["k"] == "Lit" and str(st["right"].get("v")) == "1":
+                st, plus = st["left"], 1
+            p = A.resolve(st, envs.get(id(n)))
+            b = A.resolve(n["base"], envs.get(id(n)))
+            while b[0] in ("ref", "deref"):
+                b = b[1]
+            if p[0] == "proj" and p[2] == 0 and p[1][0] == "elem" and p[1][1][0] == "mcall" and p[1][1][1] == "enumerate":
+                src = p[1][1][2]
+                while src[0] == "mcall" and src[1] in ("iter", "into_iter") or src[0] in ("ref", "deref"):
+                    src = src[2] if src[0] == "mcall" else src[1]
+                if src == b:
+                    return f"`{''.join(repo.text(fn.file, n).split())}`: the start is the enumerate() index over the same sequence{' plus one' if plus else ''}, at most its length"
+            continue
         if n["k"] != "Index" or n["l"] != site["line"] or n["index"]["k"] != "Lit" or not str(n["index"].get("v", "")).isdigit():
             continue
         k = int(n["index"]["v"])
